@@ -183,13 +183,15 @@ def run(db, chk) -> None:
     ta = db.mod("hta.trace_analysis")
     fac = ta.func("TraceAnalysis.get_cuda_kernel_launch_stats")
     cs = [c for c in H.calls(fac) if isinstance(c.func, ast.Attribute) and c.func.attr == "cuda_kernel_launch_stats"]
-    if len(cs) != 1:
-        raise AnalysisError("facade delegation not found")
-    bnd = H.bind_call(fn, cs[0])
-
     for _p, _src, _v in H.rebinds_of_params(fac, ["ranks", "runtime_cutoff", "launch_delay_cutoff", "include_memory_events", "visualize"]):
         chk.ob("C15.R-facade-integrity", f"facade forwards parameter {_p} unmodified", _v == "default-if-none", ta.loc(fac), found=_src, accepted="no re-binding, or `if p is None: p = <default>`",
                why="`p = p or default` replaces legitimate falsy values (a threshold of 0, an empty selection) by the default")
+    if len(cs) != 1:
+        from ..specs.discipline import check_facade_binding
+        check_facade_binding(db, chk, "C15.R2-facade", "TraceAnalysis.get_cuda_kernel_launch_stats", m.name, "CudaKernelAnalysis.cuda_kernel_launch_stats", returns=lambda I: {})
+        return
+    bnd = H.bind_call(fn, cs[0])
+
     for pn in ("ranks", "runtime_cutoff", "launch_delay_cutoff", "include_memory_events", "visualize"):
         chk.ob("C15.R2-facade", f"facade argument -> parameter {pn}", H.name_id(bnd.get(pn)) == pn, ta.loc(cs[0]), found=ast.unparse(bnd[pn]) if pn in bnd else None, accepted=pn)
     chk.ob("C15.R2-facade", "facade passes its trace", H.is_self_attr(bnd.get("t"), "t"), ta.loc(cs[0]), found=ast.unparse(bnd["t"]) if "t" in bnd else None, accepted="self.t")
